@@ -11,6 +11,7 @@ RULE = ("random histories (create/drop table, insert, update, delete, stream wri
         "strings (thorough: > 64 KiB); code pages: the 24 single- and multi-byte pages with strings from their repertoire through "
         "the implementation-only round-trip command (the model covers UTF-8 and US-ASCII); non-trivial = at least 3 successful "
         "mutations; distinct = distinct command lists")
+RULE = RULE + ('  Also histories that START from a file written by the independent encoder with three-byte string references (changed, saved, reopened).')
 ASSUMPTIONS = ["the cfb container is modelled as a name -> bytes map; sector-level layout is outside the model",
                "'bytes on the medium at the moment flush returns' = a copy of the shared medium taken right after flush() returned Ok"]
 KINDS = {"reopen", "summary", "panic", "meta", "idempotent"}
@@ -92,6 +93,16 @@ def gen_cases(rng, tier, info):
         h.update("S", ups=[("A", "")], cond=("bin", "eq", ("col", "B"), ("lit", 1)))
         h.obs(); h.reopen(mode); h.obs()
         cases.append(Case("empty-%d" % j, h.cmds))
+    # histories that START from a file written by another tool (three-byte string references, unused and duplicate pool
+    # entries, other property-set layouts): what is written on top of it is read back too, in the file's own conventions
+    import random
+    import props.c02 as F
+    foreign = F.gen_cases(random.Random(rng.randrange(1 << 30)), "quick", {})
+    keep = [c for k, c in enumerate(foreign) if k % 3 == 1 and k % 11 != 3][:8 if tier == "quick" else 21]
+    for c in keep:
+        c.tags = tuple(c.tags) + ("foreign",)
+        c.name = "foreign-" + c.name
+        cases.append(c)
     if tier == "thorough":
         for j in range(30):
             h = G.History(rng, j % 3)
@@ -139,6 +150,15 @@ def oracle(ctx):
                 if o != "(ok 1 1 1)":
                     bad.append({"kind": "reopen", "what": "code page round trip (database string, summary string, code pages) failed: %s" % o,
                                 "cmds": [cmd], "impl": o})
+            continue
+        if "foreign" in c.tags:
+            import props.c02 as F
+            cmds = [("(open_raw" + x[len("(x_open_raw"):]) if x.startswith("(x_open_raw") else ("(raw)" if x == "(x_raw)" else x) for x in c.cmds]
+            for f in G.walk(cmds, outs, decode=F.decode_cp, start_db=c.start_db, sort_catalog=True, accounting=False):
+                if f["kind"] in KINDS | {"open"}:
+                    f["cmds"] = [x if len(x) < 4000 else x[:4000] + " ...)" for x in f["cmds"]]
+                    bad.append(f)
+                    break
             continue
         for f in G.walk(c.cmds, outs):
             if f["kind"] in KINDS:
